@@ -26,6 +26,7 @@ from sympde.calculus.core     import PlusInterfaceOperator, MinusInterfaceOperat
 from sympde.calculus.core     import grad, div, curl, laplace #, hessian
 from sympde.calculus.core     import dot, inner, outer, _diff_ops
 from sympde.calculus.core     import has, DiffOperator
+from sympde.calculus.core     import Jump, Average, NormalDerivative
 from sympde.calculus.matrices import MatrixSymbolicExpr, MatrixElement, SymbolicTrace, Inverse
 from sympde.calculus.matrices import SymbolicDeterminant, Transpose
 
@@ -1001,6 +1002,36 @@ class LogicalExpr(CalculusFunction):
             el = TerminalExpr(el, domain=domain.logical_domain)
             return el[expr.indices[0]]
 
+        elif isinstance(expr, NormalDerivative):
+            # Dn(w) is dot(grad(w), n): the gradient must be pulled back
+            return cls.eval(dot(grad(expr.args[0]), NormalVector('n')), domain)
+
+        elif isinstance(expr, Jump):
+            arg = expr.args[0]
+            return cls.eval(MinusInterfaceOperator(arg) - PlusInterfaceOperator(arg), domain)
+
+        elif isinstance(expr, Average):
+            arg = expr.args[0]
+            return cls.eval((MinusInterfaceOperator(arg) + PlusInterfaceOperator(arg))/2, domain)
+
+        elif isinstance(expr, (MinusInterfaceOperator, PlusInterfaceOperator)) and \
+             isinstance(expr.args[0], IndexedVectorFunction):
+            # minus(F)[i] = minus(F[i]): component of the transformed restricted vector function
+            arg = expr.args[0]
+            el  = cls.eval(type(expr)(arg.base), domain)
+            el  = TerminalExpr(el, domain=domain.logical_domain)
+            return el[arg.indices[0]]
+
+        elif isinstance(expr, (MinusInterfaceOperator, PlusInterfaceOperator)) and \
+             not isinstance(expr.args[0], (ScalarFunction, VectorFunction)):
+            # the restriction of a compound expression (grad(w), dx(w), dot(grad(w), nn), f*w, ...)
+            # is the same expression of the restricted functions
+            from sympde.expr.evaluation import _restrict_to_side
+            newexpr = _restrict_to_side(type(expr), expr.args[0])
+            if newexpr == expr:
+                raise NotImplementedError('TODO')
+            return cls.eval(newexpr, domain)
+
         elif isinstance(expr, MinusInterfaceOperator):
             mapping = mapping.minus
             newexpr = PullBack(expr.args[0], mapping)
@@ -1094,12 +1125,24 @@ class LogicalExpr(CalculusFunction):
                     arg = type(expr.args[0])(arg)
                 return (1/J.det())*div(arg)
             elif isinstance(arg, PullBack):
-                return SymbolicTrace(mapping.jacobian.inv().T*grad(arg.test))
+                arg = arg.test
+                if isinstance(expr.args[0], (MinusInterfaceOperator, PlusInterfaceOperator)):
+                    # keep the restriction (as in the H(div) case)
+                    arg = type(expr.args[0])(arg)
+                return SymbolicTrace(mapping.jacobian.inv().T*grad(arg))
             else:
                 raise NotImplementedError('TODO')
 
         elif isinstance(expr, laplace):
             arg = expr.args[0]
+            if isinstance(mapping, InterfaceMapping):
+                # the outer gradient is pulled back with the mapping of the same side as the inner one
+                if isinstance(arg, MinusInterfaceOperator):
+                    mapping = mapping.minus
+                elif isinstance(arg, PlusInterfaceOperator):
+                    mapping = mapping.plus
+                else:
+                    raise TypeError(arg)
             v   = cls.eval(grad(arg), domain)
             v   = mapping.jacobian.inv().T*grad(v)
             return SymbolicTrace(v)
